@@ -227,8 +227,8 @@ def oracle_dims(ds):
     ids = [l[0] for l in first["locs"]]
     allowed = set(ids)
     if cfg.get("lat") is not None or cfg.get("lon") is not None:
-        la = cfg.get("lat") or (-90.0, 90.0)
-        lo = cfg.get("lon") or (-180.0, 180.0)
+        la = cfg.get("lat") or (-math.inf, math.inf)      # only the side that was given restricts
+        lo = cfg.get("lon") or (-math.inf, math.inf)
         allowed &= set(l[0] for l in first["locs"] if la[0] <= l[1] <= la[1] and lo[0] <= l[2] <= lo[1])
     if cfg.get("l") is not None:
         # without a lat/lon range the -l list is used as given (it may name ids absent from the first input)
@@ -482,3 +482,173 @@ def impl_noninterference(op):
             a1 = run_req(d1, r)
             out.append("same" if a0 == a1 else "diff[%s->%s]" % (a0[:80], a1[:80]))
         return "same" if all(o == "same" for o in out) else ";".join(out)
+
+
+# ------------------------------------------------------------------ permutation layer (C02)
+def permuted(ds, rng, rotate=True):
+    """same dataset: each input's time / lead / location entries shuffled (data moved along) and the scored
+    inputs rotated. Returns (variant, map old input index -> new input index)."""
+    n = len(ds.inputs) - (1 if ds.cfg.get("clim") else 0)
+    ins = []
+    for I in ds.inputs:
+        pt = list(range(len(I["times"])))
+        pl = list(range(len(I["leads"])))
+        px = list(range(len(I["locs"])))
+        rng.shuffle(pt), rng.shuffle(pl), rng.shuffle(px)
+        fields = {k: np.array(a, float)[pt][:, pl][:, :, px] for k, a in I["fields"].items()}
+        ins.append({"times": [I["times"][i] for i in pt], "leads": [I["leads"][i] for i in pl],
+                    "locs": [I["locs"][i] for i in px], "fields": fields})
+    shift = rng.randrange(n) if (rotate and n > 1) else 0
+    scored = ins[:n]
+    scored = scored[shift:] + scored[:shift]
+    mapping = {i: (i - shift) % n for i in range(n)}
+    return DS(scored + ins[n:], dict(ds.cfg)), mapping
+
+
+def has_repeats(ds):
+    for I in ds.inputs:
+        if len(set(I["times"])) != len(I["times"]) or len(set(I["leads"])) != len(I["leads"]):
+            return True
+    return False
+
+
+def impl_perm(op):
+    """dataperm <seed> …: evaluate the requests on the dataset and on a permuted variant; replies must agree
+    (after mapping input indices)."""
+    import random
+    a = op.split(" ")
+    seed = int(a[1])
+    ds, reqs = dec_op(" ".join(["data"] + a[2:]))
+    v, mapping = permuted(ds, random.Random(seed))
+    with warnings.catch_warnings():
+        warnings.simplefilter("ignore")
+        try:
+            d0 = build_data(ds)
+        except SystemExit:
+            d0 = None
+        try:
+            d1 = build_data(v)
+        except SystemExit:
+            d1 = None
+        if d0 is None or d1 is None:
+            return "same" if (d0 is None) == (d1 is None) else "diff[init %s vs %s]" % (d0 is None, d1 is None)
+        if head_of(d0) != head_of(d1):
+            # location metadata comes from the first file; dimension VALUES must agree
+            return "diff[dims %s vs %s]" % (head_of(d0), head_of(d1))
+        out = []
+        for r in reqs:
+            a0 = run_req(d0, r)
+            a1 = run_req(d1, (r[0], mapping[r[1]], r[2], r[3]))
+            out.append("same" if a0 == a1 else "diff[%s@%d@%s@%s: %s -> %s]" % ("+".join(r[0]), r[1], r[2], r[3], a0[:80], a1[:80]))
+        return "same" if all(o == "same" for o in out) else ";".join(o for o in out if o != "same")
+
+
+def write_text(I, path, rng):
+    """one input as a verif text file: columns and rows in random order, random missing tokens"""
+    cols = ["unixtime" if rng.random() < 0.5 else "date", "leadtime", "location", "lat", "lon", "altitude"]
+    dcols = [n for n in ("obs", "fcst") if n in I["fields"]]
+    if cols[0] == "date":
+        cols.insert(1, "hour")
+    order = cols + dcols
+    rng.shuffle(order)
+    import verif.util
+    rows = []
+    for it, t in enumerate(I["times"]):
+        for il, l in enumerate(I["leads"]):
+            for ix, x in enumerate(I["locs"]):
+                vals = {"unixtime": "%d" % t, "leadtime": repr(l), "location": "%d" % x[0], "lat": repr(x[1]),
+                        "lon": repr(x[2]), "altitude": repr(x[3])}
+                if "date" in order:
+                    vals["date"] = "%d" % verif.util.unixtime_to_date(int(t))
+                    vals["hour"] = "%d" % ((int(t) % 86400) // 3600)
+                skip = True
+                for n in dcols:
+                    v = float(np.array(I["fields"][n], float)[it, il, ix])
+                    if math.isnan(v):
+                        vals[n] = rng.choice(["-999", "nan", "NA", "-999.0"])
+                    else:
+                        vals[n] = repr(v)
+                        skip = False
+                if skip and rng.random() < 0.5:
+                    continue              # an all-missing combination may simply be absent from the file
+                rows.append(" ".join(vals[c] for c in order))
+    rng.shuffle(rows)
+    with open(path, "w") as f:
+        f.write("# variable: T\n# units: C\n")
+        f.write(" ".join(order) + "\n")
+        f.write("\n".join(rows) + "\n")
+
+
+def impl_text(op):
+    """datatxt <seed> …: the same requests, but every input goes through a real text file read by verif.input.Text"""
+    import random
+    import shutil
+    import tempfile
+    import verif.input
+    import verif.data
+    a = op.split(" ")
+    rng = random.Random(int(a[1]))
+    ds, reqs = dec_op(" ".join(["data"] + a[2:]))
+    d = tempfile.mkdtemp(prefix="verifc02")
+    try:
+        with warnings.catch_warnings():
+            warnings.simplefilter("ignore")
+            ins = []
+            for k, I in enumerate(ds.inputs):
+                p = "%s/in%d.txt" % (d, k)
+                write_text(I, p, rng)
+                ins.append(verif.input.Text(p))
+            try:
+                data = verif.data.Data(ins)
+            except SystemExit:
+                return "ERR init"
+            return " | ".join([head_of(data)] + [run_req(data, r) for r in reqs])
+    finally:
+        shutil.rmtree(d, ignore_errors=True)
+
+
+def add_subset_options(ds, rng):
+    """the nine subsetting options, each present with probability 1/2, values around the data's own coordinates"""
+    cfg = dict(ds.cfg)
+    I0 = ds.inputs[0]
+    alltimes = sorted(set(t for I in ds.inputs for t in I["times"]))
+    allleads = sorted(set(l for I in ds.inputs for l in I["leads"]))
+    ids = [l[0] for l in I0["locs"]]
+
+    def some(vals, extra):
+        k = rng.randint(max(0, len(vals) - 2), len(vals))
+        out = rng.sample(vals, k) + ([extra] if rng.random() < 0.3 else [])
+        rng.shuffle(out)
+        if rng.random() < 0.2 and out:
+            out.append(out[0])
+        return out
+    if rng.random() < 0.3:
+        cfg["times"] = some(alltimes, alltimes[0] + 7200.0)
+    if rng.random() < 0.3:
+        cfg["leads"] = some(allleads, 7.0)
+    if rng.random() < 0.3:
+        days = sorted(set((int(t) // 86400) * 86400 for t in alltimes))
+        cfg["dates"] = [float(d) for d in some(days, days[0] - 86400)]
+    if rng.random() < 0.3:
+        cfg["tods"] = some([0.0, 12.0], 6.0)
+    if rng.random() < 0.3:
+        cfg["l"] = some(ids + [9.0], 7.0)
+    if rng.random() < 0.2:
+        cfg["lx"] = some(ids, 7.0)
+    lats = sorted(l[1] for l in I0["locs"])
+    lons = sorted(l[2] for l in I0["locs"])
+    elevs = sorted(l[3] for l in I0["locs"])
+
+    def rng_range(vals):
+        a, b = rng.choice(vals), rng.choice(vals)
+        lo, hi = min(a, b), max(a, b)
+        return (lo + rng.choice([0.0, 0.0, -0.5, 0.5]), hi + rng.choice([0.0, 0.0, 0.5, -0.5]))
+    if rng.random() < 0.3:
+        cfg["lat"] = rng_range(lats)
+    if rng.random() < 0.3:
+        cfg["lon"] = rng_range(lons)
+    if rng.random() < 0.3:
+        cfg["elev"] = rng_range(elevs)
+    if rng.random() < 0.3:
+        cfg["obsrange"] = (rng.choice([-1.0, 0.0, 0.5, 1.0]), rng.choice([1.0, 1.5, 2.0, 3.0, 4.5]))
+    return DS(ds.inputs, cfg)
